@@ -77,6 +77,9 @@ def gen_tree(rng):
         u = J.rand_unit(rng, 0, [(rng.choice(J.PKG_POOL), "Hidden%d" % extra)])
         u.path = rng.choice([".config", ".mvn/wrapper", "src/.internal"]) + "/Hidden%d.java" % extra
         files[u.path] = (False, u, u.text)
+    if rng.random() < 0.12:
+        cu = J.colliding_unit(rng, "com.coll", "Tally", path_dir="src/main/java" if maven else "")
+        if cu is not None and cu.path not in files: files[cu.path] = (False, cu, cu.text)
     # zero-byte files before their siblings: an empty .java file (a valid compilation unit that declares nothing)
     # and a .gitkeep; neither contributes anything nor hides what follows
     if rng.random() < 0.25:
